@@ -308,6 +308,7 @@ def mon_c08(h):
         return v
     cap = h.cap
     ok_sends = taken = 0
+    over = False
     fut_tag = {}
     pend_recv = set()
     fut_kind = {}
@@ -324,16 +325,24 @@ def mon_c08(h):
                 pend_recv.add(l[1])
             else:
                 pend_recv.discard(l[1])
+        ntaken = len(received_of(res))
         if k == "dropf":
+            if l[1] in pend_recv:
+                # a pending receive dropped: it may have consumed one value (the documented caveat)
+                ntaken += 1
             pend_recv.discard(l[1])
-        if k in ("close", "droph"):
-            pass
-        ntaken = len(received_of(res)) + (len(o["d"]) if k in ("close", "droph", "dropf") and False else 0)
         if k in SEND_KINDS and k != "mksend" and res in ("ok", "ok:true"):
             ok_sends += 1
         if k == "poll" and fut_kind.get(l[1]) == "mksend" and res == "ready:ok":
             ok_sends += 1
         taken += ntaken
+        # the property's counting rule, single-threaded: successful sends never exceed the values
+        # taken by receive operations already begun (completed receives, plus at most one per
+        # receive future that is pending) by more than the capacity
+        if cap is not None and ok_sends - taken > cap + len(pend_recv) and not over:
+            over = True
+            v.append(ctx + ": %d sends have succeeded, %d values were taken, %d receives are pending: more than capacity %d allows"
+                     % (ok_sends, taken, len(pend_recv), cap))
         if cap is None:
             if k in SEND_KINDS and res in ("ok:false", "pending", "err:timeout"):
                 v.append(ctx + ": unbounded channel refused or blocked a send (%s)" % res)
